@@ -15,7 +15,7 @@ import pandas as pd
 from hypothesis import strategies as st
 
 # ----------------------------------------------------------------------------------------- pools
-STR_POOL = ["A", "B", "c", "d1", "E_e", "zz", "10", "2", "x y", "K", "m", "Q9", "b", "aa", "Z"]
+STR_POOL = ["A", "B", "c", "d1", "E_e", "zz", "10", "2", "x y", "K", "m", "Q9", "b", "aa", "Z", ""]
 ORD_POOL = ["low", "mid", "high", "z0", "a9", "M", "k", "top", "B2", "c", "x", "10", "2"]
 NUM_CAT_POOLS = {
     "ints": [1, 2, 3, 10, 20, 0, -1, 7],
